@@ -55,7 +55,7 @@ InRange(v, t) == IF IsFloat(t) THEN TRUE
 
 (* ------------------------------ scale kinds ------------------------------ *)
 \* parameter variants (small integers)
-LinearParams == {[slope |-> 2, icpt |-> 0], [slope |-> -1, icpt |-> 5], [slope |-> 3, icpt |-> -4]}
+LinearParams == {[slope |-> 2, icpt |-> 0], [slope |-> -1, icpt |-> 5], [slope |-> 1, icpt |-> 0]}
 PolyParams == {<<>>, <<7>>, <<0, 1>>, <<1, 0, 2>>, <<-1, 2, 0, 1>>}
 \* table: points (input, output) with integer slopes; listed increasing or decreasing
 TableParams == {[ins |-> <<0, 2, 4>>, outs |-> <<10, 20, 40>>], [ins |-> <<4, 2, 0>>, outs |-> <<40, 20, 10>>],
